@@ -159,7 +159,8 @@ def coq_eval_cases(prelude, case_terms, show="lines_of_cases", shard=100, timeou
         src = prelude + "\nDefinition cases := [\n" + ";\n".join(shards[ix]) + "\n].\n" \
             + f"Eval vm_compute in ({show} cases).\n"
         open(os.path.join(d, name + ".v"), "w").write(src)
-        rc, out, err = sh(["coqc", "-noglob", "-Q", COQ, "Unimock", name + ".v"], cwd=d, timeout=timeout)
+        # (long histories recurse deeply in the VM: evaluate with the hard stack limit instead of the 8 MiB default)
+        rc, out, err = sh(f"ulimit -s $(ulimit -Hs) 2>/dev/null; exec coqc -noglob -Q {COQ} Unimock {name}.v", cwd=d, timeout=timeout)
         if rc != 0:
             raise CheckFailure("model evaluation failed (coqc)", (out + err)[-3000:])
         return "\n".join(parse_coq_strings(out))
